@@ -495,7 +495,9 @@ class Save(Op):
             w.snapshots.pop(op["path"], None)
             w.disk.files.pop(op["path"], None)
             if sc and not ops_aux.unsavable_aux(w, snap):
-                return Exp("ok", value=None, owner=("C01", "C19"))
+                # every value of every supported type must be encodable (C07/C08), every
+                # self-contained IR savable (C01), every byte-storage state savable (C19)
+                return Exp("ok", value=None, owner=("C01", "C19", "C07", "C08"))
             return None
         data = w.disk.files.get(op["path"])
         if data is None:
@@ -705,6 +707,7 @@ class Restart(Op):
     def model(self, w, op, out):
         w.saved_as = {il: p for il, p, r in out.raw}
         w.counters["probe:restarts"] += 1
+        w.counters["fault:crash_restart"] += 1
         claimed = set()
         for il, p, r in out.raw:
             snap = w.snapshots[p]
